@@ -14,17 +14,17 @@ func initNumericForExpressionNode() {
 		"#init",
 		func(_ *vm.Thread, args []value.Value) (value.Value, value.Value) {
 			var argInitialiser ast.ExpressionNode
-			if !args[1].IsUndefined() {
+			if !args[1].IsUndefined() && !args[1].IsNil() {
 				argInitialiser = args[1].MustReference().(ast.ExpressionNode)
 			}
 
 			var argCondition ast.ExpressionNode
-			if !args[2].IsUndefined() {
+			if !args[2].IsUndefined() && !args[2].IsNil() {
 				argCondition = args[2].MustReference().(ast.ExpressionNode)
 			}
 
 			var argIncrement ast.ExpressionNode
-			if !args[3].IsUndefined() {
+			if !args[3].IsUndefined() && !args[3].IsNil() {
 				argIncrement = args[3].MustReference().(ast.ExpressionNode)
 			}
 
